@@ -43,7 +43,7 @@ type G struct {
 	dates    [][3]int // when non-empty: the next civil dates to hand out (dense date histories)
 }
 
-var serialPool = []uint32{1, 0xff, 0x100, 0x10000, 0x01000000, 0xffffffff, 405419896, 0x80000000, 0x7fffffff, 303986753}
+var serialPool = []uint32{1, 0xff, 0x100, 0x10000, 0x01000000, 0xffffffff, 405419896, 0x80000000, 0x7fffffff, 303986753, 201020304, 405419896, 303986753}
 
 func (g *G) serial() uint32 {
 	if g.r.Intn(3) == 0 {
